@@ -140,10 +140,11 @@ SOURCE_TIE = {
     "C09": ("C09_source", "RevocationList.Revoke / ClearRevocation / IsRevoked / allRevoked / MaybeCompact (v2 and v1compat), AccountClaims.IsClaimRevoked / isRevoked, Export.IsClaimRevoked / isRevoked"),
     "C12": ("C12_source", "ClaimsData.doEncode (what a successful Encode did, in order, with an effect log; completeness; the empty token on failure), ClaimsData.encode and the Encode of all seven kinds, each proved to return what the model's encode returns under the full gate, with the same claims object afterwards"),
     "C10": (["C10_source", "C10_source_import"], "Subject.IsContainedIn / HasWildCards (v2 and v1compat); Import.Validate with Import.IsService / IsStream / GetTo and ActivationClaims.validateWithTimeChecks (appends exactly the model's v_import, whose token part v_import_token the C10 theorems are about)"),
-    "C16": ("C16_source", "Subject.IsContainedIn / HasWildCards (v2 and v1compat)"),
-    "C18": ("C18_source", "cleanSubject (v2 and v1compat)"),
+    "C14": ("C14_source", "UserScope.ValidateScopedSigner and UserClaims.HasEmptyPermissions (a scope accepts a claim exactly when the model's validate_scoped_signer does; reflect.DeepEqual an unknown function, instantiated by has_empty_permissions)"),
+    "C16": ("C16_source", "Subject.IsContainedIn / HasWildCards and Exports.HasExportContainingSubject (v2 and v1compat; the query is true exactly when some non-nil entry's subject contains the one asked for)"),
+    "C18": ("C18_source", "ActivationClaims.HashID itself and cleanSubject (v2 and v1compat; the hash object an opaque value - sha256.New, Write and Sum unknown functions - so HashID is the model's hash_id for every hash function: refused when a part is missing, else base32 of the digest of exactly issuer.subject.cleaned)"),
     "C19": ("C19_source", "the v1compat Decode(token, target) with parseHeaders and parseClaims (accepts exactly what the model's v1_decode accepts, for every target kind)"),
-    "C20": ("C20_source", "TagList / StringList Contains, Add, Remove"),
+    "C20": ("C20_source", "TagList / StringList Contains, Add, Remove; CIDRList Contains, Add, Remove (the tag list's, through a pointer conversion) and Set (the model's cidr_set: the list emptied, the lower-cased text split on commas added)"),
 }
 for _pid, (_pf, _fns) in SOURCE_TIE.items():
     _pfl = _pf if isinstance(_pf, list) else [_pf]
